@@ -301,7 +301,27 @@ pub fn install_panic_hook() {
         } else {
             "?".to_string()
         };
-        LAST_PANIC.with(|p| *p.borrow_mut() = Some((loc, msg)));
+        // innermost cc6502 frame: stable across line shifts, unlike file:line
+        let bt = std::backtrace::Backtrace::force_capture().to_string();
+        let mut func = String::from("?");
+        for l in bt.lines() {
+            let t = l.trim();
+            if let Some(i) = t.find("cc6502::") {
+                let mut f = t[i..].to_string();
+                if let Some(k) = f.find("::h") {
+                    if f[k + 3..].chars().all(|c| c.is_ascii_hexdigit()) {
+                        f.truncate(k);
+                    }
+                }
+                // drop closure / generic noise
+                let f = f.replace("::{{closure}}", "").replace("<impl ", "").replace(">", "");
+                if !f.contains("verif_hooks") {
+                    func = f;
+                    break;
+                }
+            }
+        }
+        LAST_PANIC.with(|p| *p.borrow_mut() = Some((format!("{} in {}", loc, func), msg)));
     }));
 }
 
